@@ -37,21 +37,21 @@ def batcher_space():
                 for mode in ("grid", "random"):
                     for shuffle in (False, True):
                         for seed in EXH_SEEDS:
-                            for rng in ("int", "gen"):
-                                yield {
-                                    "kind": "batcher",
-                                    "n": n,
-                                    "b": b,
-                                    "val_ratio": ratio,
-                                    "val_mode": mode,
-                                    "shuffle": shuffle,
-                                    "seed": seed,
-                                    "rng": rng,
-                                }
+                            # rng passed as a Generator, the way Ptychography.reconstruct passes self.rng
+                            yield {
+                                "kind": "batcher",
+                                "n": n,
+                                "b": b,
+                                "val_ratio": ratio,
+                                "val_mode": mode,
+                                "shuffle": shuffle,
+                                "seed": seed,
+                                "rng": "gen",
+                            }
 
 
 def batcher_space_size():
-    return sum((n + 3) * len(val_ratio_grid(n)) for n in range(1, EXH_N_MAX + 1)) * 2 * 2 * len(EXH_SEEDS) * 2
+    return sum((n + 3) * len(val_ratio_grid(n)) for n in range(1, EXH_N_MAX + 1)) * 2 * 2 * len(EXH_SEEDS)
 
 
 def split_space():
